@@ -124,6 +124,10 @@ class Traph(object):
                 raise TraphException("File corrupted: `link_store.dat`")
 
         else:
+            # An in-memory traph always starts empty: it is created, like a
+            # fresh folder, so the given creation rules are written in the trie
+            create = True
+
             self.lru_trie_storage = MemoryStorage(LRU_TRIE_NODE_BLOCK_SIZE)
             self.links_store_storage = MemoryStorage(LINK_STORE_NODE_BLOCK_SIZE)
 
